@@ -3,6 +3,8 @@ package c13
 import (
 	"encoding/base64"
 	"fmt"
+	"net"
+	"regexp"
 	"strings"
 	"testing"
 	"time"
@@ -204,6 +206,9 @@ type RtspCase struct {
 	Video string `json:"video"` // codec of the valid announce: avc | hevc | ""
 	Audio string `json:"audio"` // aac | pcma | pcmu | opus | ""
 	Udp   bool   `json:"udp,omitempty"` // the valid SETUPs ask for UDP transport (lal opens RTP/RTCP sockets)
+	// UdpMix (with Udp): 0 = every track over UDP; 1 = only the first track over UDP, the others interleaved;
+	// 2 = the first track interleaved, the others over UDP
+	UdpMix int `json:"udp_mix,omitempty"`
 	Steps []Step `json:"steps"`
 	Mut   Mut    `json:"mut"`
 	// FeedAfter: frames the healthy feed publishes after the hostile bytes were delivered (subscriber stages)
@@ -222,6 +227,20 @@ func (c *RtspCase) uri() string {
 		return feedUri
 	}
 	return hostileUri
+}
+
+// udpTrack reports whether the valid SETUP of track i asks for UDP transport.
+func (c *RtspCase) udpTrack(i int) bool {
+	if !c.Udp {
+		return false
+	}
+	switch c.UdpMix {
+	case 1:
+		return i == 0
+	case 2:
+		return i != 0
+	}
+	return true
 }
 
 func (c *RtspCase) subscriberSide() bool {
@@ -287,7 +306,7 @@ func (c *RtspCase) prefix(cseq *int) []byte {
 	}
 	transport := func(i int, record bool) string {
 		t := fmt.Sprintf("RTP/AVP/TCP;unicast;interleaved=%d-%d", 2*i, 2*i+1)
-		if c.Udp {
+		if c.udpTrack(i) {
 			t = fmt.Sprintf("RTP/AVP/UDP;unicast;client_port=%d-%d", 41000+2*i, 41001+2*i)
 		}
 		if record {
@@ -565,12 +584,15 @@ func genFrame(t *rapid.T, c *RtspCase, st *rtpGenState) *Frame {
 func genRtspCase(t *rapid.T) RtspCase {
 	var c RtspCase
 	c.Stage = rapid.SampledFrom([]string{"none", "options", "announced", "setup", "recording", "recording", "recording", "recording", "described", "subsetup", "playing", "playing"}).Draw(t, "stage")
-	c.Video = rapid.SampledFrom([]string{"avc", "avc", "hevc", ""}).Draw(t, "video")
+	c.Video = rapid.SampledFrom([]string{"avc", "avc", "hevc", "hevc", ""}).Draw(t, "video")
 	c.Audio = rapid.SampledFrom([]string{"aac", "aac", "pcma", "pcmu", "opus", ""}).Draw(t, "audio")
 	if c.Video == "" && c.Audio == "" {
 		c.Video = "avc"
 	}
-	c.Udp = rapid.IntRange(0, 9).Draw(t, "udp") == 0
+	c.Udp = rapid.IntRange(0, 6).Draw(t, "udp") == 0
+	if c.Udp {
+		c.UdpMix = rapid.IntRange(0, 2).Draw(t, "udpMix")
+	}
 	st := &rtpGenState{seq: uint16(rapid.SampledFrom([]int{0, 1000, 65530}).Draw(t, "seq0")), ts: 1000, ssrc: rapid.SampledFrom([]uint32{0, 0x1234, 0xffffffff}).Draw(t, "ssrc")}
 	n := rapid.IntRange(1, 12).Draw(t, "nsteps")
 	// media frames first (they never end the session), requests later (an error ends it)
@@ -702,12 +724,89 @@ func runRtspOnce(c RtspCase) *pbt.Violation {
 		}
 	}
 	cseq := 0
-	wire := append(c.prefix(&cseq), c.tail(&cseq)...)
+	pre := c.prefix(&cseq)
+	tail := c.tail(&cseq)
 	conn := s.RtspConn()
+	if c.Udp && !c.subscriberSide() && (c.Stage == "setup" || c.Stage == "recording") {
+		// the hostile RTP / RTCP packets also go, as datagrams, to the UDP sockets lal opened for the valid SETUPs:
+		// they are handled in lal's own reader goroutines (a panic there kills the process: Isolate)
+		_ = conn.WriteSliced(pre, c.Slices)
+		conn.WaitPeerIdle(lalclient.IdleTimeout)
+		c.sendDatagrams(s, string(conn.ReadAvailable()))
+		pre = nil
+	}
+	wire := append(pre, tail...)
 	if v := deliverRtsp(s, conn, wire, c.Slices, fd, c.FeedAfter, conn.WaitPeerDone, "rtsp.(*Server).handleTcpConnect", "rtsp"); v != nil {
 		return v
 	}
 	return probe(s)
+}
+
+var serverPortRe = regexp.MustCompile(`server_port=(\d+)-(\d+)`)
+
+// sendDatagrams sends every RTP / RTCP frame of the case to the server ports found in the SETUP responses (RTP to the
+// RTP port of the track the frame's channel belongs to — or of any UDP track — RTCP to its RTCP port), and waits,
+// bounded and without verdict, until the session has counted them (UDP may drop under load; the interleaved delivery
+// of the same packets carries the verdict for the parsers, the datagrams add the UDP-only paths).
+func (c *RtspCase) sendDatagrams(s *inproc.Server, responses string) {
+	ports := serverPortRe.FindAllStringSubmatch(responses, -1)
+	if len(ports) == 0 {
+		return
+	}
+	// UDP tracks in SETUP order
+	var udpTracks []int
+	for i := range validTracks(c.Video, c.Audio) {
+		if c.udpTrack(i) {
+			udpTracks = append(udpTracks, i)
+		}
+	}
+	if len(udpTracks) != len(ports) {
+		return
+	}
+	before := uint64(0)
+	if st := s.SM.StatGroup("c13hostile"); st != nil {
+		before = st.StatPub.ReadBytesSum
+	}
+	sent := 0
+	for _, step := range c.Steps {
+		f := step.Frame
+		if f == nil || (f.Rtp == nil && f.Rtcp == nil) {
+			continue
+		}
+		// the track the frame's channel belongs to if that track is on UDP, else the first UDP track
+		k := 0
+		for j, tr := range udpTracks {
+			if f.Chan/2 == tr {
+				k = j
+			}
+		}
+		port := ports[k][1]
+		if f.Rtcp != nil {
+			port = ports[k][2]
+		}
+		uc, err := net.Dial("udp", "127.0.0.1:"+port)
+		if err != nil {
+			continue
+		}
+		p := f.payload()
+		if n, err := uc.Write(p); err == nil {
+			sent += n
+		}
+		_ = uc.Close()
+		// paced: the next datagram goes out when this one has been counted (lal counts a packet when its handler
+		// starts), so that packets to different sockets are handled in the order of the case; a lost datagram
+		// costs 300 ms and nothing else
+		deadline := time.Now().Add(300 * time.Millisecond)
+		for time.Now().Before(deadline) {
+			st := s.SM.StatGroup("c13hostile")
+			if st == nil || st.StatPub.ReadBytesSum >= before+uint64(sent) {
+				break
+			}
+			time.Sleep(200 * time.Microsecond)
+		}
+	}
+	// the handler of the last datagram may still be running: give it a moment (a crash there kills the process)
+	time.Sleep(2 * time.Millisecond)
 }
 
 func (c *RtspCase) stepLabels() (labels []string, hostile bool) {
@@ -793,7 +892,10 @@ func (c *RtspCase) stepLabels() (labels []string, hostile bool) {
 func classifyRtsp(c RtspCase) (bool, []string) {
 	labels := []string{"stage:" + c.Stage}
 	if c.Udp {
-		labels = append(labels, "transport:udp")
+		labels = append(labels, lbl("transport:udp-mix%d", c.UdpMix))
+		if !c.subscriberSide() && (c.Stage == "setup" || c.Stage == "recording") {
+			labels = append(labels, "udp-datagrams-to-rtp-rtcp-sockets")
+		}
 	}
 	sl, hostile := c.stepLabels()
 	labels = append(labels, sl...)
